@@ -835,9 +835,13 @@ class C03(Plugin):
             from .editsim import _first_diff
             raise Violation('result_differs_from_list_model', f'{what}: ' + _first_diff(want, got).replace('parsed:', 'model:'))
 
+    def extra_sig(self):
+        return {'predicates': sorted(getattr(self, 'last_P', ()))}
+
     def post_op(self, op, ctx, out):
         import fst
         run = self.run
+        self.last_P = set()
         if op.get('k') != 'c03' or ctx is None:
             return
         if out[0] == 'skip':
@@ -874,6 +878,8 @@ class C03(Plugin):
                 run.stats['entry_' + entry] += 1
                 self.judge(f'entry={entry} (fork; main entry {op["entry"]})', exp, fork, e2, op)
         if op.get('twin'):
+            from .editsim import _continuation_lines
+            self.last_P = {'twin_has_line_continuation'} if _continuation_lines(op['twin']) else set()
             twin = fst.FST(op['twin'], 'exec')
             if sdump(twin.a) == sdump(ast.parse(ctx['src'])):
                 e2 = None
